@@ -415,3 +415,11 @@ def instances(tier):
         out.append(cacg_instance(3, 1))
     out.append(bounded_scipy_instance())
     return out
+
+
+_inst_before_lemmas = instances
+
+
+def instances(tier):       # noqa: F811
+    from .common import lemma_instance
+    return _inst_before_lemmas(tier) + [lemma_instance('C07', 'logdet', 'lemma:log-det-of-a-cholesky-factorisation')]
